@@ -300,6 +300,7 @@ class Lowering:
         self.flat_of_mangled = {}
         self.stubs = set()           # flat names the caller wants as prototype only
         self.cur_fn = None
+        self.fdiv_macro = False
 
     def fork(self):
         """a lowering with fresh request state that shares this one's (read-only) index"""
@@ -1238,6 +1239,12 @@ class Lowering:
                 return '(%s, %s)' % (self.expr(a), self.expr(b))
             if op in ('.*', '->*'):
                 raise LoweringError('pointer to member')
+            if op == '/' and self.fdiv_macro and k == 'BinaryOperator':
+                t = self.parse_type(n['type'])
+                if t.kind == 'base' and t.name == 'double':
+                    # optional sound abstraction: double division through a macro that a proof group
+                    # may define as an uninterpreted function (see include/vf.h, VF_UF_FDIV)
+                    return 'VF_FDIV(%s, %s)' % (self.expr(a), self.expr(b))
             return '(%s %s %s)' % (self.expr(a), op, self.expr(b))
         if k == 'ConditionalOperator':
             c, a, b = n['inner']
